@@ -78,6 +78,14 @@ Definition entry_mt (rev_order : bool) (src : str) : str :=
                  do mt <- middle (if rev_order then ho_rev else ho_id) v;
                  Ok (v, mt))).
 
+(* the FIRST map alone (hook verif_hooks::first_sets): name, terminals in set order, nullable *)
+Definition entry_fm (src : str) : str :=
+  render (c_res (fun fm : first_map =>
+                   CL (map (fun '(n, fs) => CT "F" [CS n; CL (map CS (fs_terminals fs)); CN (if fs_eps fs then 1 else 0)%N]) fm))
+                (do v <- front_end src;
+                 do cx <- make_context (fuels_for 0 v) v;
+                 Ok (cx_first cx))).
+
 (* run the emitted parser of `src` on token-kind sequences; payload = position *)
 Definition run_fuel (rules : nat) (n : nat) : nat := (n + 2) * (16 * rules + 32).
 
